@@ -126,9 +126,14 @@ class Identity(Exception):
     pass
 
 
-def do(s, op, a):
-    """Apply step to real object s; returns the call's return value."""
-    O = lambda spec: build_operand(spec, receiver=s)  # noqa: E731
+def do(s, op, a, retained=None):
+    """Apply step to real object s; returns the call's return value.  Bitstring operands that were built for the call
+    are appended to `retained` as (object, bits) so that the caller can keep watching them."""
+    def O(spec):
+        o = build_operand(spec, receiver=s)
+        if retained is not None and o is not s and hasattr(o, 'tobitarray') and len(spec) > 1:
+            retained.append((o, spec[1]))
+        return o
     if op == 'append':
         return s.append(O(a[0]))
     if op == 'iadd':
@@ -282,7 +287,7 @@ def input_class(m, op, a, ma, lsb0=False):
     return '&'.join(parts) or 'plain'
 
 
-def judge_step(ctx, prop, s, m, op, a, case, lsb0=False, extra_key=''):
+def judge_step(ctx, prop, s, m, op, a, case, lsb0=False, extra_key='', retained=None):
     """Run one step on real object s whose content is m; compare with the model.
     Returns the real content afterwards (the caller resynchronises its model to it)."""
     L = len(m)
@@ -294,7 +299,7 @@ def judge_step(ctx, prop, s, m, op, a, case, lsb0=False, extra_key=''):
         exp = ex
         nm, ret = m, None
     ic = input_class(m, op, a, ma, lsb0)
-    kind, got = util.call(lambda: do(s, op, a))
+    kind, got = util.call(lambda: do(s, op, a, retained))
     real = B(s)
     outcome = 'ok' if kind == 'ok' else type(got).__name__
     ctx.op(op, outcome)
